@@ -146,6 +146,11 @@ def o_suspend(w):
             if after:
                 out.append(('op-ran-while-suspended:op%d' % ko, And(Ne(fret, NONE_T), Ne(start, NONE_T), Or(Eq(resumed, NONE_T), Ult(start, resumed)), Uge(start, fret))))
                 out.append(('op-overtook-suspend:op%d' % ko, And(Ne(start, NONE_T), Ne(fret, NONE_T), Ult(start, fret))))
+            if o['tindex'] != sop['tindex']:
+                # an operation of another thread whose scheduling call was made after the suspend future resolved (real-time order) must not start
+                # before the resumer is used or dropped ("sync calls made during the suspension wait rather than overtake")
+                inv = w.ghost.get('inv%d' % ko, NONE_T)
+                out.append(('op-of-other-thread-ran-while-suspended:op%d' % ko, And(Ne(fret, NONE_T), Ne(inv, NONE_T), Ult(fret, inv), Ne(start, NONE_T), Or(Eq(resumed, NONE_T), Ult(start, resumed)))))
     return out
 
 def o_cancelled_clean(w):
